@@ -4,6 +4,7 @@ PROP = {
     "min_theorems": 9,
     "required_theorems": [
         "Verif.Properties.C42.tags_pinned",
+        "Verif.Properties.C42.cbor_roundtrip",
         "Verif.Properties.C42.sort_unique",
         "Verif.Properties.C42.canonical_entitlements",
         "Verif.Properties.C42.canonical_dictionary",
